@@ -272,6 +272,8 @@ pipeline!(c01_pipe_user_b_sp_a, S_U, [B, SP, A], "\u{2}\u{4}\u{1}", true, 0, 2);
 pipeline!(c01_pipe_s1_ccc_maxgroup1, S1, [C, C, C], "\u{3}\u{3}\u{3}", false, 1, 2);
 //@ c01_pipe_s1_a_sp_b_ignore {"desc":"ignore_space, inner gap: \"a<sp>b\"","bounds":"N=3; dictionary S1","symbolic":"costs, ids, matrix","functions":["Tokenizer::build_lattice_inner","Lattice::insert_node","Lattice::append_top_nodes"],"fs":2048,"unwind":7,"timeout":2400,"mem_gb":24}
 pipeline!(c01_pipe_s1_a_sp_b_ignore, S1, [A, SP, B], "\u{1}\u{4}\u{2}", true, 0, 2);
+//@ c01_pipe_s1_c_sp_a_ignore {"desc":"ignore_space where a sentence character shares its category with U+0020 and U+0000 (DEFAULT) while SPACE is another character: only the SPACE-category character may be skipped","bounds":"N=3 \"c<sp>a\"; dictionary S1 (U+0020 is DEFAULT like c)","symbolic":"costs, ids, matrix","functions":["Tokenizer::ignore_space","Tokenizer::build_lattice_inner","Lattice::insert_node","Lattice::append_top_nodes"],"fs":2048,"unwind":7,"timeout":2400,"mem_gb":24}
+pipeline!(c01_pipe_s1_c_sp_a_ignore, S1, [C, SP, A], "\u{3}\u{4}\u{1}", true, 0, 2);
 //@ c01_pipe_s1_abc {"tier":"thorough","core":false,"desc":"partition of \"abc\"","bounds":"N=3; dictionary S1","symbolic":"costs, ids, matrix","functions":["Worker::tokenize"],"fs":2048,"unwind":7,"timeout":2400,"mem_gb":24}
 pipeline!(c01_pipe_s1_abc, S1, [A, B, C], "\u{1}\u{2}\u{3}", false, 0, 2);
 //@ c01_pipe_s2_aba {"tier":"thorough","core":false,"desc":"partition of \"aba\" with user lexicon","bounds":"N=3; dictionary S2","symbolic":"costs, ids, matrix","functions":["Worker::tokenize"],"fs":2048,"unwind":8,"timeout":2400,"mem_gb":24}
